@@ -34,8 +34,9 @@ def chan_component(pid, tier, binpath):
         runs += [("holder", 6, "full", "ready"), ("cp", 6, "full", "ready")]
     evaluations = 0
     nontrivial = 0
+    runs.append(("handler", 1 if quick else 3, "full", "ready"))
     for side, n, contents, phase in runs:
-        ex = chan.extract(binpath, n, contents, side, phase)
+        ex = chan.extract_handler(n) if side == "handler" else chan.extract(binpath, n, contents, side, phase)
         r = chan.impl_tlc(ex, "none", [], workers=8)
         rep = r["report"]
         det = _details_index(ex)
@@ -63,6 +64,15 @@ def chan_component(pid, tier, binpath):
                              "what": "refused %s changed %s (%s)" % (b["req"]["op"], "+".join(comps), ",".join(fields)),
                              "replay": {"kind": "chan-edge", "n": n, "phase": phase, "pre": b["pre"], "req": b["req"],
                                         "err": d.get("resp", {}).get("err"), "post": b["post"]}})
+            for b in rep.get("muts_bad", []):
+                d = det.get((b["node"], b["ri"]), {})
+                key = "hand:%s:v%s:n%+d:pending-mutations" % (b["req"]["op"], b["req"].get("v", "-"),
+                                                             b["req"].get("n", 0) - b["pre"]["nh"])
+                viol.append({"key": key, "what": "refused %s (protocol %s) left %s pending mutations in the transactional "
+                                                 "store" % (b["req"]["op"], b["req"].get("v"), d.get("muts", "?")),
+                             "replay": {"kind": "hand-path", "path": d.get("path"), "req": b["req"],
+                                        "err": d.get("resp", {}).get("err")}})
+            cov[name]["refused_with_pending_mutations"] = len(rep.get("muts_bad", []))
             if not samples:
                 samples = [{"pre": b["pre"], "req": b["req"], "refused": True, "changed_mask": 0}
                            for b in _sample_refusals(ex, 3)]
@@ -80,6 +90,13 @@ def chan_component(pid, tier, binpath):
                              "what": "after %s the restored signer differs in %s" % (b["req"]["op"], ",".join(diff)),
                              "replay": {"kind": "chan-edge", "n": n, "phase": phase, "pre": b["pre"], "req": b["req"],
                                         "post": b["post"], "diff": diff}})
+            for b in rep.get("crash_bad", []):
+                d = det.get((b["node"], b["ri"]), {})
+                diff = [x for x in d.get("restart_diff", ["?"]) if x.startswith("crash:")]
+                key = "hand:%s:crash-before-commit:%s" % (b["req"]["op"], ",".join(diff)[:80])
+                viol.append({"key": key, "what": "a crash between prepare and commit of %s loses %s" % (b["req"]["op"], diff),
+                             "replay": {"kind": "hand-path", "path": d.get("path"), "req": b["req"], "diff": diff}})
+            cov[name]["crash_between_prepare_and_commit_violations"] = len(rep.get("crash_bad", []))
             if not samples:
                 samples = [{"pre": b["pre"], "req": b["req"], "restart_equal": True}
                            for b in _sample_refusals(ex, 2, want_ok=True)]
